@@ -50,14 +50,14 @@ static int run_text(const char *text, int tlen, int nvar, int pos, int extra_tai
 }
 
 /* ---------------- family A: all short texts ---------------- */
-static const char ALPHA[] = "+-01259xXaF, ";
+static const char ALPHA[] = "+-01259xXaF, \"";
 
 static int family_all(int maxlen, int shard, int nshards)
 {
         int idx = 0;
         for (int ti = 0; ti < 3; ti++)
                 for (int sz = 1; sz <= 4; sz <<= 1) {
-                        for (int first = 0; first < 13; first++, idx++) {
+                        for (int first = 0; first < 14; first++, idx++) {
                                 if (idx % nshards != shard) continue;
                                 build(TYPES[ti], sz, CAT_VAR_ACCESS_READ_WRITE, 1, 0, 0, 1, 16);
                                 snprintf(SW.extra, sizeof SW.extra, "family=all-short-texts type=%c size=%d", TCH[ti], sz);
@@ -70,7 +70,7 @@ static int family_all(int maxlen, int shard, int nshards)
                                                 for (int i = 0; i < len; i++) t[i] = ALPHA[cnt[i]];
                                                 if (run_text(t, len, 1, 0, 0)) return 1;
                                                 int k = len - 1;
-                                                while (k >= 1 && ++cnt[k] == 13) { cnt[k] = 0; k--; }
+                                                while (k >= 1 && ++cnt[k] == 14) { cnt[k] = 0; k--; }
                                                 if (k < 1) break;
                                         }
                                         if (sw_expired()) return 0;
